@@ -149,6 +149,20 @@ def check_create_arcs(chk, rep, repo):
             ok = direction == "desc"
         elif e.name == "append" and e.args == (("idx", sc.N, r),):
             ok = direction == "asc"
+    if not ins:
+        # prepend form, after the read-out loop: `adjacency[:0] = [idx_buffer[l] for l in <the filled ranks, ascending>]`
+        pre_st = [e for e in w.events if e.kind == "store" and e.target == ("idx", adj, ("slice", None, ("const", 0), None))
+                  and e.loops == (sc.per.lid,)]
+        if len(pre_st) == 1 and pre_st[0].value[0] == "listcomp" and len(pre_st[0].value[2]) == 1 and not pre_st[0].value[2][0][2]:
+            lc = pre_st[0].value
+            d2, l2 = lc[2][0][0], lc[2][0][1]
+            asc = [("call", ("builtin", "range"), (kparam,), ()), ("call", ("builtin", "range"), (("const", 0), kparam), ())]
+            if d2[0] == "listcomp" and len(d2[2]) == 1 and d2[2][0][0] in asc and d2[1] == ("iter", d2[2][0][0], d2[2][0][1]):
+                rr = d2[1]
+                keep = [("cmp", "!=", *sorted([K("FLOAT_MAX"), ("idx", sc.D, rr)], key=repr)), ("cmp", "<", ("idx", sc.D, rr), K("FLOAT_MAX"))]
+                ok = lc[1] == ("idx", sc.N, ("iter", d2, l2)) and len(d2[2][0][2]) == 1 and d2[2][0][2][0] in keep \
+                    and not [e for e in w.events if e.kind == "store" and e.target[0] == "idx" and e.target[1] in (sc.D, sc.N)
+                             and e.seq > sc.cand.last_seq and e.seq < pre_st[0].seq]
     rep.fn("ARCS-adjacency", fn, "neighbour list is built in ascending order of distance from the paired index buffer",
            ok, "adjacency must be filled with neighbours_idx[l] by insert(0, .) on a descending walk or append on an "
            "ascending one", line=ro.line)
@@ -224,7 +238,8 @@ def _detached_pdf_range(w, s_mn, s_mx):
 
 
 def check_pdf(chk, rep, repo):
-    w = graph_walk(repo, "KNNSubgraph", "calculate_pdf")
+    from ..rules_premise import without_validation
+    w = without_validation(graph_walk(repo, "KNNSubgraph", "calculate_pdf"))
     fn = w.entry
     G = ("self",)
     alg = TermAlgebra()
